@@ -20,6 +20,7 @@ def EPIPE : Int := -32
 def EALREADY : Int := -114
 def EINPROGRESS : Int := -115
 def ECONNREFUSED : Int := -111
+def EADDRINUSE : Int := -98
 def ECANCELED : Int := -125
 
 /-- what `uv_guess_handle` says about a descriptor -/
@@ -241,10 +242,18 @@ structure Conn where
   cbs : List (Nat × Int) := []      -- connect callbacks delivered (req, status), oldest first
   wcbs : List (Nat × Int) := []     -- write callbacks delivered
   accepted : List Nat := []         -- requests whose submitting call returned 0
+  connectCalls : Nat := 0           -- ghost: how often connect(2) was reached
 deriving Repr
 
 /-- result of connect(2) after the EINTR loop: 0, or a negative errno -/
 abbrev SysRes := Int
+
+/-- `uv__tcp_bind` (tcp.c, bind(2) part): EADDRINUSE is *deferred* into `delayed_error` and the call returns 0;
+every other bind(2) error is returned -/
+def tcpBind (c : Conn) (r : Int) : Conn × Int :=
+  if c.closing then (c, EINVAL) else
+  if r != 0 && r != EADDRINUSE then ({ c with fdOpen := true }, r)
+  else ({ c with fdOpen := true, delayedError := if r == 0 then 0 else r }, 0)
 
 /-- `uv__tcp_connect`; `sockErr` = maybe_new_socket result, `r` = connect(2) result (UV__ERR form) -/
 def tcpConnect (c : Conn) (sockErr : Int) (r : SysRes) : Conn × Int :=
@@ -257,7 +266,7 @@ def tcpConnect (c : Conn) (sockErr : Int) (r : SysRes) : Conn × Int :=
     if c.delayedError != 0 then submit c
     else if sockErr != 0 then (c, sockErr)
     else
-      let c := { c with fdOpen := true }
+      let c := { c with fdOpen := true, connectCalls := c.connectCalls + 1 }
       if r == 0 || r == EINPROGRESS then submit c
       else if r == ECONNREFUSED then submit { c with delayedError := ECONNREFUSED }
       else (c, r)
@@ -273,7 +282,7 @@ def pipeConnect (c : Conn) (argErr : Int) (sockErr : Int) (r : SysRes) : Conn ×
                 accepted := c.accepted ++ [c.nextReq], fed := c.fed || err != 0 }, 0)
     if !c.fdOpen && sockErr != 0 then out c sockErr
     else
-      let c := { c with fdOpen := true }
+      let c := { c with fdOpen := true, connectCalls := c.connectCalls + 1 }
       if r != 0 && r != EINPROGRESS then out c r
       else out { c with pollout := true } 0
 
@@ -313,6 +322,7 @@ def connDestroy (c : Conn) : Conn :=
     flushWrites { c with destroyed := true } ECANCELED
 
 inductive COp
+  | tcpBind (r : Int)
   | tcpConnect (sockErr : Int) (r : SysRes)
   | pipeConnect (argErr sockErr : Int) (r : SysRes)
   | io (soError : Int)
@@ -322,6 +332,7 @@ inductive COp
 deriving Repr
 
 def cstep (c : Conn) : COp → Conn
+  | .tcpBind r => (tcpBind c r).1
   | .tcpConnect e r => (tcpConnect c e r).1
   | .pipeConnect a e r => (pipeConnect c a e r).1
   | .io so => streamConnect c so
